@@ -747,8 +747,14 @@ fn g_str(rng: &mut Rng) -> Lit {
     };
     Lit::Str(q, s)
 }
+/// boundary integers: 0, +-1, around 2^31 (the i32 ends), around 2^53 (the last integers f64 holds exactly), the i64 ends
+const INT_BOUNDS: [i64; 18] = [
+    0, 1, -1, 2147483647, 2147483648, 2147483649, -2147483648, -2147483649, 9007199254740991, 9007199254740992, 9007199254740993,
+    -9007199254740993, i64::MAX, i64::MIN, i64::MAX - 1, i64::MIN + 1, 4294967295, 4294967296,
+];
 fn g_int(rng: &mut Rng) -> i64 {
-    match rng.below(8) {
+    match rng.below(9) {
+        8 => *rng.pick(&INT_BOUNDS),
         0 => i64::MAX,
         1 => i64::MIN,
         2 => 0,
